@@ -392,6 +392,7 @@ FIXED_PROGRAMS = {
     "optional-reentrant-regex-append": ir.Program([("str", "s0", 1, False, b"", False)], [], [], [], [], (("optional", (("append", "s0", _ASTARB),)), _SEMI), ["-O0"]),
     "optional-reentrant-loop": ir.Program([], ["h0"], [], [], [], (("optional", (_ABLOOP,)), _SEMI), ["-O3"]),
     "loop-optional-reentrant-regex": ir.Program([], ["h0"], [], [], [], (("loop", None, (("optional", (("match", _ASTARB),)), _SEMI)),), ["-O1"]),
+    "break-in-clause-skips-trailing-actions": ir.Program([], ["h0"], [], [], [], (("loop", None, (("case", False, (((("lit", b"x", "str"),), None, (("break", None),)), ((("lit", b"y", "str"),), None, ()))), ("hook", "h0"))), _SEMI), ["-O1"]),
     "optional-start-hook-reentrant": ir.Program([], ["h0"], [], [], [], (("match", ("lit", b"x", "str")), ("optional", (("hook", "h0"), ("match", _ASTARB))), _SEMI), ["-O1"]),
 }
 
